@@ -49,6 +49,15 @@ type addrSpec struct {
 	// WrapBackoff: a "fail" of this address returns an error that WRAPS swarm.ErrDialBackoff, as the relay
 	// client does when its own dial to the relay is refused for back-off (the dial itself was executed)
 	WrapBackoff bool `json:"failure_wraps_ErrDialBackoff,omitempty"`
+	// ViaName: the peerstore does not list this address itself, only a DNS name that resolves to it
+	ViaName bool `json:"known_only_through_a_dns_name,omitempty"`
+}
+
+// nameSpec: an address of the peer that starts with a DNS name, and what the (fake) resolver answers
+type nameSpec struct {
+	Addr    string   `json:"addr_in_peerstore"`
+	Records []string `json:"resolves_to"` // every entry is an addrSpec of the scenario; dnsaddr records get the /p2p suffix at run time
+	Fail    bool     `json:"resolver_returns_an_error,omitempty"`
 }
 
 type caller struct {
@@ -74,6 +83,8 @@ type scenario struct {
 	MustDial string `json:"address_out_of_backoff_for_the_joiner,omitempty"`
 	PerPeer  int    `json:"per_peer_limit"`
 	FDLimit  int    `json:"fd_limit"`
+	// Names: addresses the peerstore lists as DNS names (multi-record /dns4, /dnsaddr, failing and empty names)
+	Names []nameSpec `json:"dns_names,omitempty"`
 }
 
 type ev struct {
@@ -109,6 +120,8 @@ type result struct {
 	MaxFD   int
 	Stuck   string
 	bubble  run.BubbleResult
+
+	ResolverCalls int
 }
 
 const relayPeerIdx = 60
@@ -287,6 +300,9 @@ func gen(r *run.R, i int, perPeer, fd int) *scenario {
 	pool := swarmrig.Pool(64)
 	sc := &scenario{ID: fmt.Sprintf("dial/pp%d-fd%d/%d", perPeer, fd, i), Staggered: rng.IntN(2) == 0, PerPeer: perPeer, FDLimit: fd}
 	sc.Addrs = universe(rng, pool.ID[relayPeerIdx], sc.Staggered)
+	if i%3 == 1 {
+		dnsify(rng, sc)
+	}
 	n := 1 + rng.IntN(6)
 	for k := 0; k < n; k++ {
 		c := caller{AtU: []int{0, 0, 1000, 100000, 250000, 251000, 600000, 2000000}[rng.IntN(8)], CancelU: -1}
@@ -317,6 +333,96 @@ func gen(r *run.R, i int, perPeer, fd int) *scenario {
 		sc.HookDelayU = []int{1, 1000, 250000}[rng.IntN(3)]
 	}
 	return sc
+}
+
+// dnsify hides some addresses of the scenario behind DNS names: a /dns4 name with 2-3 A records (one of
+// them the scenario's public TCP address), a /dnsaddr name whose records are the QUIC-family addresses
+// (which may be listed directly as well: duplicates), a name the resolver fails for and one without
+// records. The candidate set - and so every rule of the oracle - stays a set of addrSpecs.
+func dnsify(rng interface{ IntN(int) int }, sc *scenario) {
+	script := func(a addrSpec) addrSpec {
+		a.Script = []string{"ok", "fail", "fail", "hang", "fail", "fail"}[rng.IntN(6)]
+		a.DelayU = []int{0, 1000, 250000, 499000, 1000000}[rng.IntN(5)]
+		if sc.Staggered {
+			a.DelayU += 7
+		}
+		return a
+	}
+	multi := nameSpec{Addr: "/dns4/multi.verif/tcp/4001"}
+	found := false
+	for k := range sc.Addrs {
+		if sc.Addrs[k].Name == "tcp-pub" {
+			sc.Addrs[k].ViaName, sc.Addrs[k].AddAt, found = true, 0, true
+		}
+	}
+	if !found {
+		sc.Addrs = append(sc.Addrs, script(addrSpec{Name: "tcp-pub", Addr: "/ip4/1.2.3.4/tcp/4001", Class: "must", FD: true, ViaName: true}))
+	}
+	multi.Records = append(multi.Records, "/ip4/1.2.3.4/tcp/4001")
+	for k := 0; k < 1+rng.IntN(2); k++ {
+		a := script(addrSpec{Name: fmt.Sprintf("tcp-pub-%c", 'b'+k), Addr: fmt.Sprintf("/ip4/1.2.3.%d/tcp/4001", 14+10*k), Class: "must", FD: true, ViaName: true})
+		sc.Addrs = append(sc.Addrs, a)
+		multi.Records = append(multi.Records, a.Addr)
+	}
+	sc.Names = append(sc.Names, multi)
+	boot := nameSpec{Addr: "/dnsaddr/boot.verif"}
+	for k := range sc.Addrs {
+		if n := sc.Addrs[k].Name; n == "quic-pub" || n == "wt-pub" || n == "ws-pub" {
+			boot.Records = append(boot.Records, sc.Addrs[k].Addr)
+			sc.Addrs[k].AddAt = 0
+			sc.Addrs[k].ViaName = rng.IntN(2) == 0
+		}
+	}
+	if rng.IntN(3) > 0 {
+		sc.Names = append(sc.Names, boot)
+	} else {
+		for k := range sc.Addrs {
+			if n := sc.Addrs[k].Name; n == "quic-pub" || n == "wt-pub" || n == "ws-pub" {
+				sc.Addrs[k].ViaName = false
+			}
+		}
+	}
+	if rng.IntN(2) == 0 {
+		sc.Names = append(sc.Names, nameSpec{Addr: "/dns4/broken.verif/tcp/4001", Fail: true})
+	}
+	if rng.IntN(3) == 0 {
+		sc.Names = append(sc.Names, nameSpec{Addr: "/dns6/empty.verif/tcp/4001"})
+	}
+}
+
+// fakeResolver answers from the scenario's table, at once
+type fakeResolver struct {
+	names  map[string]nameSpec
+	remote peer.ID
+	mu     sync.Mutex
+	calls  int
+}
+
+func (f *fakeResolver) lookup(a ma.Multiaddr, suffix bool) ([]ma.Multiaddr, error) {
+	f.mu.Lock()
+	f.calls++
+	f.mu.Unlock()
+	n, ok := f.names[a.String()]
+	if !ok || n.Fail {
+		return nil, fmt.Errorf("verif resolver: no such host %s", a)
+	}
+	var out []ma.Multiaddr
+	for _, r := range n.Records {
+		m := ma.StringCast(r)
+		if suffix {
+			m = m.Encapsulate(ma.StringCast("/p2p/" + f.remote.String()))
+		}
+		out = append(out, m)
+	}
+	return out, nil
+}
+
+func (f *fakeResolver) ResolveDNSAddr(_ context.Context, _ peer.ID, a ma.Multiaddr, _, _ int) ([]ma.Multiaddr, error) {
+	return f.lookup(a, true)
+}
+
+func (f *fakeResolver) ResolveDNSComponent(_ context.Context, a ma.Multiaddr, _ int) ([]ma.Multiaddr, error) {
+	return f.lookup(a, false)
 }
 
 var slots = swarmrig.NewSlots(40)
@@ -362,6 +468,11 @@ func runScenario(t *testing.T, sc *scenario) (res result) {
 		for i := range sc.Addrs {
 			byAddr[ma.StringCast(sc.Addrs[i].Addr).String()] = &sc.Addrs[i]
 		}
+		fres := &fakeResolver{names: map[string]nameSpec{}, remote: remote}
+		for _, n := range sc.Names {
+			fres.names[ma.StringCast(n.Addr).String()] = n
+		}
+		defer func() { res.ResolverCalls = fres.calls }()
 		rig, err := swarmrig.New(20+slot%3, func(tpt string, a ma.Multiaddr, p peer.ID, attempt int) scripttpt.Outcome {
 			sp := byAddr[a.String()]
 			if sp == nil {
@@ -375,7 +486,7 @@ func runScenario(t *testing.T, sc *scenario) (res result) {
 				out.Err = fmt.Errorf("relay: failed to dial the relay: %w", swarm.ErrDialBackoff)
 			}
 			return out
-		}, swarm.WithDialTimeout(15*time.Second), swarm.WithDialTimeoutLocal(5*time.Second))
+		}, swarm.WithDialTimeout(15*time.Second), swarm.WithDialTimeoutLocal(5*time.Second), swarm.WithMultiaddrResolver(fres))
 		if err != nil {
 			panic(err)
 		}
@@ -403,9 +514,15 @@ func runScenario(t *testing.T, sc *scenario) (res result) {
 		}
 		closedAt := map[string]int64{}
 		var wg sync.WaitGroup
+		for _, n := range sc.Names {
+			rig.PS.AddAddrs(remote, []ma.Multiaddr{ma.StringCast(n.Addr)}, peerstore.PermanentAddrTTL)
+		}
 		for i := range sc.Addrs {
 			a := sc.Addrs[i]
 			m := ma.StringCast(a.Addr)
+			if a.ViaName {
+				continue
+			}
 			if a.AddAt == 0 {
 				rig.PS.AddAddrs(remote, []ma.Multiaddr{m}, peerstore.PermanentAddrTTL)
 				if i%3 == 0 { // the same address again, with the /p2p suffix
@@ -618,6 +735,19 @@ func check(sc *scenario, res *result) (out []finding, st map[string]int) {
 					st["error_returns_with_all_attempted"]++
 					if timedOutWaiting {
 						st["dial_timeout_returns_with_all_attempted"]++
+					}
+				}
+			}
+		}
+	}
+	if len(sc.Names) > 0 {
+		st["scenarios_with_dns_names"]++
+		st["dns_resolver_calls"] += res.ResolverCalls
+		for _, sp := range sc.Addrs {
+			if sp.ViaName {
+				for _, d := range res.Dials {
+					if d.Addr == ma.StringCast(sp.Addr).String() {
+						st["dials_of_addresses_known_only_through_a_dns_name"]++
 					}
 				}
 			}
@@ -875,6 +1005,8 @@ func TestC05(t *testing.T) {
 	r.Require("transport_dials", 2000)
 	r.Require("callers_released_by_shared_success", 100)
 	r.Require("backoff_join_address_dialled_for_the_joiner", 100)
+	r.Require("scenarios_with_dns_names", 500)
+	r.Require("dials_of_addresses_known_only_through_a_dns_name", 500)
 }
 
 func overlap(res *result) bool {
